@@ -87,7 +87,9 @@ static void write_replay(const std::string& path, const Plan& p, const Violation
 
 #ifdef SIM_MODE_T
 static const char* kBinaryT =
-#if defined(SIM_ASAN)
+#if defined(SIM_BINARY_NAME)
+    SIM_BINARY_NAME;
+#elif defined(SIM_ASAN)
     "simTa";
 #else
     "simT";
